@@ -56,6 +56,18 @@ Theorem C10_bounding_domain_y_is_the_hull : forall g r,
 Proof. exact bounding_domain_y_is_hull. Qed.
 Print Assumptions C10_bounding_domain_y_is_the_hull.
 
+Theorem C10_segment3_box_contains : forall l t, 0 <= t -> t <= 1 ->
+  v3x (Base1DIn3D_min l) <= v3x (lr3p l) + t * v3x (lr3v l) <= v3x (Base1DIn3D_max l) /\
+  v3y (Base1DIn3D_min l) <= v3y (lr3p l) + t * v3y (lr3v l) <= v3y (Base1DIn3D_max l) /\
+  v3z (Base1DIn3D_min l) <= v3z (lr3p l) + t * v3z (lr3v l) <= v3z (Base1DIn3D_max l).
+Proof. exact segment3_box_contains. Qed.
+Print Assumptions C10_segment3_box_contains.
+
+Theorem C10_segment3_center_is_midpoint : forall l,
+  Base1DIn3D_center l =3= mkV3 (v3x (lr3p l) + (1 # 2) * v3x (lr3v l)) (v3y (lr3p l) + (1 # 2) * v3y (lr3v l)) (v3z (lr3p l) + (1 # 2) * v3z (lr3v l)).
+Proof. exact segment3_center_is_midpoint. Qed.
+Print Assumptions C10_segment3_center_is_midpoint.
+
 Example C10_nonvacuous :
   Base2DIn2D_min (mkPolygon2 [mkV2 3 1; mkV2 0 2; mkV2 5 (-1); mkV2 2 7]) = mkV2 0 (-1) /\
   Base2DIn2D_max (mkPolygon2 [mkV2 3 1; mkV2 0 2; mkV2 5 (-1); mkV2 2 7]) = mkV2 5 7.
